@@ -289,6 +289,52 @@ theorem list_dids_order_unique (absent : Int) (habs : absent < 0) (order : List 
   · exact eq_of_map_nodup (·.method) l hn a ha' b hb' hm
   · exact (lessDID_total_of_method_ne absent habs order a b hm hba hab).elim
 
+theorem find_of_map_nodup {α β} [DecidableEq β] (g : α → β) : ∀ (l : List α), (l.map g).Nodup → ∀ a ∈ l,
+    l.find? (fun d => g d = g a) = some a
+  | [], _, _, h => by cases h
+  | x :: xs, hn, a, ha => by
+    rw [List.map_cons, List.nodup_cons] at hn
+    rw [List.find?_cons]
+    rcases List.mem_cons.mp ha with rfl | ha
+    · simp
+    · have hne : g x ≠ g a := fun e => hn.1 (e ▸ List.mem_map.mpr ⟨a, ha, rfl⟩)
+      simp only [hne, decide_false]
+      exact find_of_map_nodup g xs hn.2 a ha
+
+/-- **`Create` hands back every document it made, once** (`sortDIDDocumentsByMethod`): for documents with pairwise
+    different IDs the answer is a permutation of them, and its IDs are the sorted IDs (= the order of `ListDIDs`) -/
+theorem sorted_documents_are_a_permutation (absent : Int) (order : List String) (docs : List (DidId × Nat))
+    (hn : (docs.map (·.1)).Nodup) :
+    (sortDocsByMethod absent order docs).Perm docs ∧
+    (sortDocsByMethod absent order docs).map (·.1) = sortDIDsByMethod absent order (docs.map (·.1)) := by
+  have hfind : ∀ d ∈ docs, docs.find? (fun x => x.1 = d.1) = some d := fun d hd => by
+    have := find_of_map_nodup (·.1) docs hn d hd
+    simpa using this
+  have hp : (sortDIDsByMethod absent order (docs.map (·.1))).Perm (docs.map (·.1)) := sortBy_perm _ _
+  constructor
+  · unfold sortDocsByMethod
+    refine (hp.filterMap _).trans ?_
+    rw [List.filterMap_map]
+    rw [filterMap_eq_self _ docs (fun d hd => by simpa using hfind d hd)]
+  · unfold sortDocsByMethod
+    generalize hs : sortDIDsByMethod absent order (docs.map (·.1)) = sorted at hp
+    have hsub : ∀ id ∈ sorted, id ∈ docs.map (·.1) := fun id h => hp.subset h
+    clear hs hp
+    induction sorted with
+    | nil => rfl
+    | cons id rest ih =>
+      obtain ⟨d, hd, hdi⟩ := List.mem_map.mp (hsub id (List.mem_cons_self ..))
+      have := hfind d hd
+      rw [hdi] at this
+      rw [List.filterMap_cons, this]
+      simp only [List.map_cons]
+      rw [ih (fun x hx => hsub x (List.mem_cons_of_mem _ hx)), hdi]
+
+/-- with two documents of ONE ID the second is lost and the first comes back twice (not reachable from `Create`: one
+    document per method, IDs differ) -/
+example : sortDocsByMethod (-1) ["nuts", "web"] [(⟨"web", "did:web:x"⟩, 0), (⟨"web", "did:web:x"⟩, 1)] =
+    [(⟨"web", "did:web:x"⟩, 0), (⟨"web", "did:web:x"⟩, 0)] := by decide
+
 /-! ### non-vacuity -/
 
 example : matchesPlus Now.cls "A.b_c-9" = true ∧ matchesPlus Now.cls "" = false ∧ matchesPlus Now.cls "a:b" = false ∧
